@@ -142,3 +142,99 @@ macro_rules! tuples {
     } )* };
 }
 tuples!((A); (A, B); (A, B, C); (A, B, C, D); (A, B, C, D, E); (A, B, C, D, E, F));
+
+// ---------------------------------------------------------------- more impls (C14 corpus)
+use std::collections::{BTreeMap, BTreeSet, HashMap, HashSet};
+
+impl Samples for String {
+    fn max_sample() -> Self { "h\u{e9}llo \u{1F600}".into() }
+    fn rand(r: &mut Rng) -> Self { crate::gen::gen_string(r, false) }
+    fn candidates() -> Vec<Self> { vec![String::new(), "a".into(), Self::max_sample()] }
+}
+impl Samples for &'static str {
+    fn max_sample() -> Self { "static str \u{4e16}" }
+    fn rand(r: &mut Rng) -> Self { Box::leak(crate::gen::gen_string(r, false).into_boxed_str()) }
+    fn candidates() -> Vec<Self> { vec!["", "x", Self::max_sample()] }
+}
+impl Samples for std::path::PathBuf {
+    fn max_sample() -> Self { "/tmp/some/\u{e9}/path.txt".into() }
+    fn rand(r: &mut Rng) -> Self { format!("/p{}/q", r.below(1000)).into() }
+    fn candidates() -> Vec<Self> { vec!["".into(), Self::max_sample()] }
+}
+fn small_len(r: &mut Rng) -> usize { [0usize, 1, 1, 2, 3, 5][r.below(6) as usize] }
+impl<T: Samples> Samples for Vec<T> {
+    fn max_sample() -> Self { (0..3).map(|_| T::max_sample()).collect() }
+    fn rand(r: &mut Rng) -> Self { let n = small_len(r); (0..n).map(|_| T::rand(r)).collect() }
+    fn candidates() -> Vec<Self> { vec![vec![], vec![T::max_sample()], Self::max_sample()] }
+}
+impl<T: Samples + 'static> Samples for &'static [T] {
+    fn max_sample() -> Self { Box::leak(Vec::<T>::max_sample().into_boxed_slice()) }
+    fn rand(r: &mut Rng) -> Self { Box::leak(Vec::<T>::rand(r).into_boxed_slice()) }
+    fn candidates() -> Vec<Self> { Vec::<T>::candidates().into_iter().map(|v| &*Box::leak(v.into_boxed_slice())).collect() }
+}
+impl<T: Samples + Ord> Samples for BTreeSet<T> {
+    fn max_sample() -> Self { [T::max_sample()].into_iter().collect() }
+    fn rand(r: &mut Rng) -> Self { let n = small_len(r); (0..n).map(|_| T::rand(r)).collect() }
+    fn candidates() -> Vec<Self> { vec![BTreeSet::new(), Self::max_sample()] }
+}
+impl<T: Samples + Eq + std::hash::Hash> Samples for HashSet<T> {
+    fn max_sample() -> Self { [T::max_sample()].into_iter().collect() }
+    fn rand(r: &mut Rng) -> Self { let n = small_len(r); (0..n).map(|_| T::rand(r)).collect() }
+    fn candidates() -> Vec<Self> { vec![HashSet::new(), Self::max_sample()] }
+}
+impl<K: Samples + Ord, V: Samples> Samples for BTreeMap<K, V> {
+    fn max_sample() -> Self { [(K::max_sample(), V::max_sample())].into_iter().collect() }
+    fn rand(r: &mut Rng) -> Self { let n = small_len(r); (0..n).map(|_| (K::rand(r), V::rand(r))).collect() }
+    fn candidates() -> Vec<Self> { vec![BTreeMap::new(), Self::max_sample()] }
+}
+impl<K: Samples + Eq + std::hash::Hash, V: Samples> Samples for HashMap<K, V> {
+    fn max_sample() -> Self { [(K::max_sample(), V::max_sample())].into_iter().collect() }
+    fn rand(r: &mut Rng) -> Self { let n = small_len(r); (0..n).map(|_| (K::rand(r), V::rand(r))).collect() }
+    fn candidates() -> Vec<Self> { vec![HashMap::new(), Self::max_sample()] }
+}
+impl<T: Samples, const N: usize> Samples for heapless08::Vec<T, N> {
+    fn max_sample() -> Self { (0..N).map(|_| T::max_sample()).collect() }
+    fn rand(r: &mut Rng) -> Self { let n = r.below(N as u64 + 1).min(8) as usize; (0..n).map(|_| T::rand(r)).collect() }
+    fn candidates() -> Vec<Self> { vec![heapless08::Vec::new(), Self::max_sample()] }
+}
+impl<const N: usize> Samples for heapless08::String<N> {
+    fn max_sample() -> Self { let mut s = heapless08::String::new(); for _ in 0..N { let _ = s.push('a'); } s }
+    fn rand(r: &mut Rng) -> Self {
+        let mut s = heapless08::String::new();
+        for _ in 0..r.below(N as u64 + 1).min(12) { if s.push(crate::gen::gen_char(r)).is_err() { break; } }
+        s
+    }
+    fn candidates() -> Vec<Self> { vec![heapless08::String::new(), Self::max_sample()] }
+}
+impl Samples for uuid::Uuid {
+    fn max_sample() -> Self { uuid::Uuid::from_bytes([0xFF; 16]) }
+    fn rand(r: &mut Rng) -> Self { let b = r.bytes(16); uuid::Uuid::from_bytes(b.try_into().unwrap()) }
+    fn candidates() -> Vec<Self> { vec![uuid::Uuid::nil(), Self::max_sample()] }
+}
+impl Samples for chrono::DateTime<chrono::Utc> {
+    fn max_sample() -> Self { chrono::DateTime::from_timestamp(4_102_444_800, 999_999_999).unwrap() }
+    fn rand(r: &mut Rng) -> Self { chrono::DateTime::from_timestamp(r.below(4_000_000_000) as i64 - 1_000_000_000, r.below(1_000_000_000) as u32).unwrap() }
+    fn candidates() -> Vec<Self> { vec![chrono::DateTime::from_timestamp(0, 0).unwrap(), Self::max_sample()] }
+}
+impl Samples for chrono::DateTime<chrono::FixedOffset> {
+    fn max_sample() -> Self { chrono::DateTime::<chrono::Utc>::max_sample().with_timezone(&chrono::FixedOffset::east_opt(5 * 3600 + 1800).unwrap()) }
+    fn rand(r: &mut Rng) -> Self { chrono::DateTime::<chrono::Utc>::rand(r).with_timezone(&chrono::FixedOffset::west_opt(r.below(12 * 3600) as i32).unwrap()) }
+}
+impl<T: Samples + nalgebra::Scalar, const R: usize, const C: usize> Samples for nalgebra::SMatrix<T, R, C> {
+    fn max_sample() -> Self { nalgebra::SMatrix::from_fn(|_, _| T::max_sample()) }
+    fn rand(r: &mut Rng) -> Self { nalgebra::SMatrix::from_fn(|_, _| T::rand(r)) }
+}
+impl Samples for postcard_schema::key::Key {
+    fn max_sample() -> Self { postcard_schema::key::Key::for_path::<Vec<(u8, String)>>("topic/max") }
+    fn rand(r: &mut Rng) -> Self { let p = format!("p{}", r.next()); postcard_schema::key::Key::for_path::<u32>(&p) }
+}
+impl Samples for postcard_schema::schema::owned::OwnedDataModelType {
+    fn max_sample() -> Self { let mut r = Rng::new(77); crate::schema::gen_schema(&mut r, 4, 3) }
+    fn rand(r: &mut Rng) -> Self { crate::schema::gen_schema(r, 3, 3) }
+    fn candidates() -> Vec<Self> { crate::schema::all_kinds() }
+}
+impl Samples for &'static postcard_schema::schema::DataModelType {
+    fn max_sample() -> Self { crate::schema::leak(&Samples::max_sample()) }
+    fn rand(r: &mut Rng) -> Self { crate::schema::leak(&crate::schema::gen_schema(r, 3, 3)) }
+    fn candidates() -> Vec<Self> { crate::schema::all_kinds().iter().map(crate::schema::leak).collect() }
+}
